@@ -1,4 +1,5 @@
 import JsightVerif.Model.Catalog
+import JsightVerif.Proofs.BuildProps
 /-
   C05 — names are unique, cross references are closed (registry level).
   Theorems about the insertion-ordered registries of the catalog and the tag bookkeeping
@@ -140,5 +141,21 @@ theorem useTags_keys (tags tags' : OMap Tag) (id : Name) (ts : List Name) (h : u
 example : (do let c ← addTag {} "@a" "A"; addInteraction c "http GET /x" "/x" "GET" ["@a"] ("@x", "/x")).toOption.isSome = true := by decide
 example : (do let c ← addTag {} "@a" "A"; addInteraction c "http GET /x" "/x" "GET" ["@a", "@a"] ("@x", "/x")).toOption.isSome = false := by decide
 example : (do let c ← addTag {} "@a" "A"; addTag c "@a" "again").toOption.isSome = false := by decide
+
+/-! ### the model that is compared with the real builder (Model/Build.lean, op `cat`) -/
+
+section Tied
+open JsightVerif.Model JsightVerif.Model.Build JsightVerif.Gen
+
+/-- **C05 (unique interaction ids, tied model)**: in every accepted project no two interactions of
+    the catalog have the same id (a method declared twice for one path is refused instead). -/
+theorem C05_interaction_ids_unique (roots : List DT) (rootFile : Bytes) (banned : List Kind)
+    (content : Bytes → Bytes) (b : Built) (h : build roots rootFile banned content = .ok b) :
+    (ids b.cat).Nodup := by
+  obtain ⟨_, _, _, _, tags, enums, s, _, _, _, hadd, hc⟩ := build_stages roots rootFile banned content b h
+  rw [hc]
+  exact addList_nodup content b.expanded [] b.expanded [] _ s (by simp) hadd
+
+end Tied
 
 end JsightVerif.Props.C05
